@@ -20,6 +20,16 @@ SHIPPED = ['grs80', 'wgs84', 'ans', 'intl24']
 E9 = SHIPPED + ['e63_150', 'e63_400', 'e64_150', 'e64_400', 'e635_275']
 G8 = SHIPPED + ['g63_280', 'g63_320', 'g64_280', 'g64_320']
 
+def ell_obj(name):
+    """the ellipsoid object for a case: shipped ones are the shipped constants; arbitrary ones are built FRESH for every use
+    and dropped afterwards (CPython then reuses their address for the next one: a memo keyed on id() or on one parameter
+    answers with the previous ellipsoid's constants)"""
+    if name in SHIPPED:
+        return ELLS[name]
+    a, invf = ELL_AF[name]
+    return gc.Ellipsoid(ELLS[name].semimaj, ELLS[name].inversef)
+
+
 # ---- projections ----------------------------------------------------------------------------
 PRJS = {
     'utm': gc.utm, 'isg': gc.isg,
